@@ -15,6 +15,7 @@ def c03(tier, rep):
                          "noisy documents (distinct by source text, non-trivial = more than one line)")
     E.menu(rep, M.BASE, 3 if tier == "quick" else 4, invariants=["Inv_C03"], label="base")
     E.grow(rep, M.STRUCT, [([], 6 if tier == "quick" else 7), (PFX_TWO_RULES, 2)], invariants=["Inv_C03"], label="struct")
+    E.reuse_pass(rep, E.src_corpus() + E.src_limits() + E.src_generated(60, SEED), "reuse")
     E.traces(rep, E.record_all(std_sources(tier, 300, 3000)), "corpus+gen+noisy")
 
 
@@ -60,6 +61,7 @@ def c12(tier, rep):
     E.menu(rep, [M.TABLES[i] for i in (0, 1, 2, 3, 4, 5, 7, 12, 13, 14, 15)], 4 if tier == "thorough" else 3, max_errs=3, invariants=["Inv_C12"], label="ragged-data", prefix=[1, 2, 3])
     E.menu(rep, [M.TABLES[i] for i in (0, 1, 2, 3, 4, 5, 7, 12, 14)], 3 if tier == "quick" else 4, max_errs=3, invariants=["Inv_C12"], label="ragged-examples", prefix=[1, 2, 3, 4])
     _rows(rep, 5 if tier == "quick" else 6, (124, 92, 110, 116, 32), (32,), "letter_t", ("count", "text", "col", "ast", "exception"))
+    _rows(rep, 4 if tier == "quick" else 5, (124, 92, 8203, 65279, 32), (32,), "invisible", ("count", "text", "col", "ast", "exception"))
     E.traces(rep, E.record_all(std_sources(tier, 300, 3000)), "corpus+gen+noisy")
 
 
@@ -260,6 +262,8 @@ PFX_TAGGED = [10, 1, 10, 2, 10, 4, 6, 10, 5, 8, 9]  # tags at feature, rule, sce
 PFX_OUTLINE = [1, 3, 6, 4, 6, 7, 5, 8]              # Feature, Background, Given; Scenario, Given, And; Examples, header
 PFX_RULE_BG = [1, 2, 3, 6, 4, 6]                    # Feature, Rule, Background, Given; Scenario, Given
 PFX_TABLELESS = [1, 4, 6, 10, 5]                    # Feature, Scenario, Given; tags, Examples (no table yet)
+PFX_BG_ARG = [1, 3, 6, 11, 4, 6, 5, 8]              # Feature, Background, Given <a> x, | <a> |; Scenario, Given <a> x; Examples, | a |
+MIXED_CASE_DIALECTS = ["cy-GB", "en-Scouse", "mk-Cyrl", "mk-Latn", "sr-Cyrl", "sr-Latn", "zh-CN", "zh-TW", "fr", "em", "ht", "en-old"]
 
 
 def _compile_family(tier, rep, inv):
@@ -268,9 +272,9 @@ def _compile_family(tier, rep, inv):
                          "four levels; outline with background); distinct documents, non-trivial = at least one pickle; plus corpus/generated traces")
     q = tier == "quick"
     E.grow(rep, M.STRUCT, [([], 6 if q else 8), (PFX_TWO_RULES, 3 if q else 4), (PFX_TAGGED, 2 if q else 3), (PFX_OUTLINE, 2 if q else 4),
-                           (PFX_RULE_BG, 2 if q else 3), (PFX_TABLELESS, 3 if q else 4)],
+                           (PFX_RULE_BG, 2 if q else 3), (PFX_TABLELESS, 3 if q else 4), (PFX_BG_ARG, 2 if q else 3)],
            invariants=[inv], label="struct")
-    E.traces(rep, E.record_all(std_sources(tier, 300, 3000)), "corpus+gen+noisy")
+    E.traces(rep, E.record_all(std_sources(tier, 300, 3000) + E.src_generated(60 if q else 1000, SEED + 1, MIXED_CASE_DIALECTS)), "corpus+gen+noisy+dialects")
     E.compiler_reuse_pass(rep, std_sources(tier, 150, 1500))
 
 
@@ -364,6 +368,13 @@ def c17(tier, rep):
             if cli != json.loads(json.dumps(direct)):
                 rep.violation({"kind": "cli"}, {"engine": "cli", "what": "scripts/generate_events.py output differs from GherkinEvents.enum", "flags": flags,
                                                 "first": next(((a, b) for a, b in zip(cli, direct) if a != b), (len(cli), len(direct)))})
+        # the same file given twice is two sources
+        one = files[0][0]
+        cli = S.cli_events([one, files[1][0], one], [])
+        direct = [e for seg in S.run_stream([files[0], files[1], files[0]], (True, True, True)) for e in seg]
+        rep.case(("cli", "repeated-path"))
+        if cli != json.loads(json.dumps(direct)):
+            rep.violation({"kind": "cli-repeated-path"}, {"engine": "cli", "what": "a path given twice is not handled as two sources", "envelopes_cli": len(cli), "envelopes_direct": len(direct)})
         # the uri is the path exactly as given (relative spellings included)
         os.makedirs(os.path.join(d, "sub"), exist_ok=True)
         with open(os.path.join(d, "sub", "x.feature"), "w") as fh:
@@ -388,7 +399,7 @@ def c11(tier, rep):
     q = tier == "quick"
     E.grow(rep, M.STRUCT, [([], 6 if q else 8), (PFX_TAGGED, 2 if q else 3), (PFX_OUTLINE, 2 if q else 4)], invariants=["Inv_C11"], label="struct")
     _stream_part(tier, rep, lambda what: what in ("Inv_C11_Unique", "Inv_C11_Dense", "unique", "envelopes") or "Monotone" in what)
-    E.traces(rep, E.record_all(std_sources(tier, 300, 3000)), "corpus+gen+noisy")
+    E.traces(rep, E.record_all(std_sources(tier, 300, 3000) + E.src_generated(40 if q else 600, SEED + 2, MIXED_CASE_DIALECTS)), "corpus+gen+noisy+dialects")
     _default_parser_ids(rep)
 
 def _all_ids(doc, pickles):
@@ -463,6 +474,7 @@ def c09(tier, rep):
             continue
         docs.append((f"interp-text:{k}", "Feature: f\n  Background:\n    Given " + t + "\n  Scenario Outline: " + t + "\n    Given " + t + "\n      | " + esc(t) + " |\n    When y\n      \"\"\" " + t
                      + "\n      " + t + "\n      \"\"\"\n    Examples:\n      | " + " | ".join(map(esc, hs)) + " |\n      | " + " | ".join(map(esc, vs)) + " |\n", "en"))
+    E.grow(rep, M.STRUCT, [(PFX_BG_ARG, 2 if tier == "quick" else 3), (PFX_OUTLINE, 2)], invariants=["Inv_C09"], label="struct")
     E.traces(rep, E.record_all(docs + std_sources(tier, 200, 2000)), "interp-text+corpus+gen")
 
 
@@ -481,6 +493,16 @@ def c10(tier, rep):
         rep.violation({"kind": "spec-invariant", "invariant": inv}, {"engine": "MC_Types", "what": f"{inv} violated", "tlc_tail": res.out[-3000:]})
     for b in bad[:50]:
         rep.violation({"kind": "types"}, {"engine": "types", "what": "pickle step types differ from the specification", **b})
+    cases, bad, res = CL.types(1, 2 if tier == "quick" else 3, tag="types-rule", max_rb=2)
+    rep.add_tlc("MC_Types[rule-background]", res, f"{len(cases)} sequences over feature background x RULE background x scenario, plain and outline")
+    rep.traces += 2 * len(cases)
+    for c in cases:
+        rep.case(("rule-bg", tuple(c["bg"]), tuple(c.get("rb", ())), tuple(c["sc"])), nontrivial=len(c["sc"]) > 0)
+    for inv in sorted(set(res.invariant_violations)):
+        rep.violation({"kind": "spec-invariant", "invariant": inv}, {"engine": "MC_Types", "what": f"{inv} violated", "tlc_tail": res.out[-3000:]})
+    for b in bad[:50]:
+        rep.violation({"kind": "types"}, {"engine": "types", "what": "pickle step types differ from the specification (rule background)", **b})
+    E.grow(rep, M.STRUCT, [([], 6 if tier == "quick" else 7), (PFX_TWO_RULES, 3), (PFX_OUTLINE, 2)], invariants=["Inv_C10"], label="struct")
     # every step keyword of every dialect: the keyword -> type map, via real documents with an outline
     langs = master_dialects()
     docs = []
@@ -494,6 +516,9 @@ def c10(tier, rep):
         body = f"{D['feature'][0]}: f\n  {D['scenarioOutline'][0]}: o\n" + "".join(f"    {kw}s{i}\n" for i, kw in enumerate(kws)) + f"    {D['examples'][0]}:\n      | h |\n      | 1 |\n"
         docs.append((f"steps:{d}", body, d))
     E.traces(rep, E.record_all(docs + std_sources(tier, 200, 2000)), "all-step-keywords+corpus+gen")
+    # one matcher re-used across documents that switch dialect by header: the keyword -> type map must be the dialect's own each time
+    hdr = [(f"hdr:{d}", f"# language: {d}\n" + body, "en") for (n, body, d) in docs[:: 2 if tier == "quick" else 1]]
+    E.reuse_pass(rep, hdr + [("plain-en", "Feature: f\n  Scenario: s\n    Given a\n    And b\n    * c\n", "en")] + hdr[:5], "reuse-headers")
 
 
 def c13(tier, rep):
@@ -581,7 +606,10 @@ def c16(tier, rep):
         rep.violation({"kind": "layout:" + b["tr"]["t"]}, {"engine": "MC_Layout", "what": "result of the transformed document differs from the adjusted original result", **b})
     srcs = [x for x in std_sources(tier, 150, 2000) if not (q and "very_long" in x[0])]
     pairs = LY.build_pairs(srcs, SEED, 2 if q else 4)
-    verdicts, res = LY.validate_pairs(pairs)
+    verdicts, ress = LY.validate_pairs(pairs)
+    for res in ress[:-1]:
+        rep.add_tlc("Trace_Layout", res, "batch")
+    res = ress[-1]
     rep.add_tlc("Trace_Layout", res, f"{len(pairs)} documents, {sum(len(p['cases']) for p in pairs)} transformed versions: harness transformation = ApplyT, admissible, relation holds on recorded results")
     for k, p in enumerate(pairs):
         for c, v in zip(p["cases"], verdicts[k + 1]):
